@@ -76,7 +76,7 @@ def _get(doc: Any, path: Tuple[Any, ...]) -> Any:
     return doc
 
 
-def constraint_edit(spec: Any, pos: Dict[str, Any], doc: Any, a: int) -> Optional[Tuple[str, Any]]:
+def constraint_edit(spec: Any, pos: Dict[str, Any], doc: Any, a: int) -> Optional[List[Tuple[str, Any]]]:
     r = pos["ref"]
     t = pos["type"]
     kind = t.name if t.kind == "prim" else (spec.cp_prim(t.name) if t.kind == "cp" else t.kind)
@@ -94,7 +94,7 @@ def constraint_edit(spec: Any, pos: Dict[str, Any], doc: Any, a: int) -> Optiona
         if hi is not None and cur:
             options.append(("list-longer-than-max", (cur * (hi + 2))[: hi + 1]))
     if r.len and kind == "bytearray":
-        return ("excluded:bytes-length", None)
+        return [("excluded:bytes-length", None)]
     if r.patterns and kind == "str":
         # violate ONE chosen pattern, keeping the other constraints satisfied where the pool allows it
         i = a % len(r.patterns)
@@ -112,12 +112,19 @@ def constraint_edit(spec: Any, pos: Dict[str, Any], doc: Any, a: int) -> Optiona
             options.append(("string-outside-pattern", loose[a % len(loose)]))
     if not options:
         return None
+    if several_bounds(r):
+        # the tightest of several declared bounds is the one that counts: every length edit of this position
+        return [(name + ":several-bounds" if "than-m" in name else name, _set(doc, pos["path"], val)) for name, val in options]
     # pattern edits are the rarest: prefer them half of the time
     pat = [o for o in options if o[0].startswith("string-outside-pattern")]
     if pat and a % 2 == 0:
         options = pat
     name, val = options[a % len(options)]
-    return name, _set(doc, pos["path"], val)
+    return [(name, _set(doc, pos["path"], val))]
+
+
+def several_bounds(r: Any) -> bool:
+    return (len({mx for _, mx, _ in r.len if mx is not None}) > 1) or (len({mn for mn, _, _ in r.len if mn is not None}) > 1)
 
 
 def structural_edit(spec: Any, neutral: Any, doc: Any, a: int, b: int) -> Optional[Tuple[str, Any]]:
@@ -183,8 +190,7 @@ def evaluate(case: Dict[str, Any], base: Any, ctx: Any = None) -> List[Tuple[str
             pos = positions(spec, prop_refs, cp_refs, neutral)
             for k in range(min(6, len(pos))):
                 ps = pos[(a + k) % len(pos)]
-                ce = constraint_edit(spec, ps, doc, b + k)
-                if ce is not None:
+                for ce in constraint_edit(spec, ps, doc, b + k) or []:
                     if ce[1] is None:
                         if ctx is not None:
                             ctx.exclude(ce[0])
